@@ -6,3 +6,7 @@ import Ypv.Props.C15
 #print axioms Ypv.C15.keyword_crash_only_K1
 #print axioms Ypv.C15.keyword_no_crash_outside_K1
 #print axioms Ypv.C15.queries_errors_are_ypath_compare
+#print axioms Ypv.C15.collector_crash_only_hashSub
+#print axioms Ypv.C15.collector_errors_are_ypath_partial
+#print axioms Ypv.C15.collector_queries_errors_are_ypath_compare
+#print axioms Ypv.C15.subtraction_loop_outcomes
